@@ -1,7 +1,7 @@
 """C13 — ties and slurs: streams."""
 from ..core import Stream, hx, unhx, run_driver
 
-RULE = ("tie: programs with one or more tied groups (2..7 notes, any pitches incl. repeats and returns, lengths, gates, velocities; Slur modes 0-3 and values; "
+RULE = ("tie: programs with one or more tied groups (2..7 notes, any pitches incl. repeats and returns, lengths, gates, velocities; Slur modes 0-3 and values, changed between the groups of a program with the one- and two-argument forms; "
         "groups at top level, in loops, tuplets, Sub, on several tracks) are run with '&' and, as reference, with every '&' removed; the events of the "
         "tied run must be the events of the plain run with each group replaced by the model's flush of that group (notes and bend-range/reset events "
         "exactly; mode-0 glide samples only by their time window), the time pointers must be equal, and everything after the group identical. "
@@ -23,37 +23,48 @@ def gen_group(rng):
     gates = [rng.choice(["", "", "50", "100", "80"]) for _ in range(n)]
     return pitches, lens, gates
 
-def render_group(g, tied):
+def render_group(g, tied, mark=111):
     pitches, lens, gates = g
     out = []
     for i, (p, l, q) in enumerate(zip(pitches, lens, gates)):
-        s = p + l + "," + q + ",111"      # velocity 111 marks the notes of tied groups
+        s = p + l + "," + q + ",%d" % mark      # velocities 111..113 mark the notes of tied groups (one value per group)
         if tied and i < len(pitches) - 1: s += "&"
         out.append(s)
     return " ".join(out)
 
 def gen_case(rng):
-    mode = rng.choice([0, 1, 2, 3]); val = rng.choice([0, 0, 10, 24, 48, 96]) if mode in (0, 2) else rng.choice([0, 0, 100])
+    """Slur is a per-track setting: Slur(m,v) sets mode and value, Slur(m) only the mode; the settings in force when a group is flushed
+       (= at the note that closes it) decide how it sounds; groups of one case carry their own marker velocity"""
+    mode, val = 0, 0
     tb = rng.choice([96, 96, 48, 480])
-    parts_t = []; parts_p = []; groups = []
+    parts_t = []; parts_p = []; groups = []; gm = {}
     def both(s):
         parts_t.append(s); parts_p.append(s)
+    def slur():
+        nonlocal mode, val
+        m = rng.choice([0, 1, 2, 3])
+        if rng.random() < 0.6:
+            v = rng.choice([0, 0, 10, 24, 48, 96]) if m in (0, 2) else rng.choice([0, 0, 100])
+            both(rng.choice(["Slur(%d,%d)", "SLUR(%d,%d)"]) % (m, v)); mode, val = m, v
+        else:
+            both("Slur(%d)" % m); mode = m
     if tb != 96: both("TimeBase(%d)" % tb)
     if rng.random() < 0.3: both("TR(%d)" % rng.choice([1, 2, 3]))
-    both(rng.choice(["Slur(%d,%d)", "SLUR(%d,%d)"]) % (mode, val) if val or rng.random() < 0.5 else "Slur(%d)" % mode)   # Slur is a per-track setting
+    if rng.random() < 0.8: slur()
     if rng.random() < 0.5: both(rng.choice(["o4", "v90", "q80", "l8", "c", "r8", "d e"]))
     ngroups = rng.choice([1, 1, 2, 3])
     for gi in range(ngroups):
-        g = gen_group(rng); groups.append(g)
+        if gi > 0 and rng.random() < 0.6: slur()
+        g = gen_group(rng); groups.append(g); mark = 111 + gi; gm[str(mark)] = [mode, val]
         ctx = rng.random()
-        t, p = render_group(g, True), render_group(g, False)
+        t, p = render_group(g, True, mark), render_group(g, False, mark)
         if ctx < 0.6: parts_t.append(t); parts_p.append(p)
         elif ctx < 0.75: parts_t.append("[2 %s n100]" % t); parts_p.append("[2 %s n100]" % p)
         elif ctx < 0.85: parts_t.append("Sub{%s n40} r" % t); parts_p.append("Sub{%s n40} r" % p)
         else: parts_t.append("{%s n41}2" % t); parts_p.append("{%s n41}2" % p)
         both(rng.choice(["n100", "n100 r", "n100,8 d"]))      # the group is closed by the next note (sentinel)
     changes = sum(1 for g in groups for a, b in zip(g[0], g[0][1:]) if a != b)
-    return " ".join(parts_t), " ".join(parts_p), mode, val, tb, groups, changes
+    return " ".join(parts_t), " ".join(parts_p), gm, tb, groups, changes
 
 def parse_evs(s):
     return [] if s in ("~", "") else s.split(",")
@@ -64,10 +75,10 @@ def streams(tier, rng, P, only=None, cases=None):
         cs = []
         n = 6000 if big else 800
         for i in range(n):
-            t, p, mode, val, tb, groups, ch = gen_case(rng)
-            cs.append(dict(req="run2 %s %s" % (hx(t), hx(p)), src=t, plain=p, show=t, mode=mode, val=val, tb=tb, glens=[len(g[0]) for g in groups], changes=ch, key="t%d" % i))
+            t, p, gm, tb, groups, ch = gen_case(rng)
+            cs.append(dict(req="run2 %s %s" % (hx(t), hx(p)), src=t, plain=p, show=t, gm=gm, tb=tb, glens=[len(g[0]) for g in groups], changes=ch, key="t%d" % i))
         for j, (t, p, mode, val) in enumerate([("Slur(3) l4 c,,111&d,,111 e", "Slur(3) l4 c,,111 d,,111 e", 3, 0), ("Slur(1) l4 c,,111&d,,111&c,,111 e", "Slur(1) l4 c,,111 d,,111 c,,111 e", 1, 0), ("Slur(2,10) c,,111&c,,111&d,,111 e", "Slur(2,10) c,,111 c,,111 d,,111 e", 2, 10)]):
-            cs.append(dict(req="run2 %s %s" % (hx(t), hx(p)), src=t, plain=p, show=t, mode=mode, val=val, tb=96, glens=[2 if j == 0 else 3], changes=1, key="fixed%d" % j))
+            cs.append(dict(req="run2 %s %s" % (hx(t), hx(p)), src=t, plain=p, show=t, gm={"111": [mode, val]}, tb=96, glens=[2 if j == 0 else 3], changes=1, key="fixed%d" % j))
         return cs
     def model(c, st, f):
         return []      # needs the plain run's events: evaluated in judge with a direct driver call
@@ -89,11 +100,13 @@ def streams(tier, rng, P, only=None, cases=None):
     return [s for s in (s1,) if only in (None, s.name)]
 
 def expected_from_plain(c, eb):
-    """a tied group = a maximal run of consecutive note-ons carrying the marker velocity 111 in the plain run"""
-    groups = []; cur = []
+    """a tied group = a maximal run of consecutive note-ons carrying one marker velocity (111..113) in the plain run"""
+    groups = []; cur = []; curm = None
     for idx, e in enumerate(eb):
         p = e.split(":")
-        if p[0] == "on" and p[5] == "111": cur.append(idx)
+        if p[0] == "on" and p[5] in c["gm"]:
+            if cur and p[5] != curm: groups.append(cur); cur = []
+            cur.append(idx); curm = p[5]
         else:
             if cur: groups.append(cur); cur = []
     if cur: groups.append(cur)
@@ -101,7 +114,8 @@ def expected_from_plain(c, eb):
     for g in groups:
         evs = ",".join(eb[i] for i in g)
         chv = eb[g[0]].split(":")[2]
-        r = run_driver(["tieflush %d %s %d %d %d %s" % (c["mode"], chv, c["tb"], brv, c["val"], evs)])[0]
+        gmode, gval = c["gm"][eb[g[0]].split(":")[5]]
+        r = run_driver(["tieflush %d %s %d %d %d %s" % (gmode, chv, c["tb"], brv, gval, evs)])[0]
         if not r.startswith("ok ev="): return None
         outs.append(r.split("ev=")[1].split(" ")[0]); brv = int(r.split("br=")[1])
     exp = []; i = 0
@@ -124,7 +138,7 @@ def compare(c, got, exp):
         for i, (a, b) in enumerate(zip(gn, en)):
             if a != b: return False, "event %d is %s, the tie law gives %s" % (i, a, b)
         return False, "different number of note/range events: %d vs %d" % (len(gn), len(en))
-    if c["mode"] == 1:
+    if all(mv[0] != 0 for mv in c["gm"].values()):
         if gb != eb_: return False, "bend events differ: %s vs %s" % (gb[:6], eb_[:6])
     else:
         # resets (value 8192) exactly, glide samples by count bound and window
